@@ -560,6 +560,13 @@ namespace
             int visit(T3& x) override { log->push_back({3, &x}); return 103; }
         };
         struct VisNone : xtl::base_visitor {};
+        // a handler that itself throws - an exception type the dispatching layer might use internally, and an ordinary one
+        struct VisThrows : xtl::base_visitor, xtl::visitor<mpl::vector<T1, T2>, int, false>
+        {
+            Log* log;
+            int visit(T1& x) override { log->push_back({1, &x}); throw std::bad_cast(); }
+            int visit(T2& x) override { log->push_back({2, &x}); throw std::logic_error("handler failed"); }
+        };
         static constexpr bool throwing = HT::throwing;
         Run& run; const Plan& plan; Log log; std::string tail;
         R root; T1 o1; T2 o2; T3 o3;
@@ -569,14 +576,28 @@ namespace
         {
             StepScope sc(run, st, plan.cfg.c_str());
             int t = static_cast<int>(st.a % 4);      // 0 root, 1..3 leaves
-            int v = static_cast<int>(st.b % 4);      // visitor kind
+            int v = static_cast<int>(st.b % 5);      // visitor kind
             run.abstract(mix(strhash(plan.cfg.c_str()), static_cast<uint64_t>(t), static_cast<uint64_t>(v)));
             R* target = t == 0 ? &root : (t == 1 ? static_cast<R*>(&o1) : (t == 2 ? static_cast<R*>(&o2) : static_cast<R*>(&o3)));
-            VisAll va; va.log = &log; Vis12 v12; v12.log = &log; Vis3 v3; v3.log = &log; VisNone vn;
-            xtl::base_visitor* vis = v == 0 ? static_cast<xtl::base_visitor*>(&va) : (v == 1 ? static_cast<xtl::base_visitor*>(&v12) : (v == 2 ? static_cast<xtl::base_visitor*>(&v3) : static_cast<xtl::base_visitor*>(&vn)));
-            bool implemented = t != 0 && ((v == 0) || (v == 1 && (t == 1 || t == 2)) || (v == 2 && t == 3));
+            VisAll va; va.log = &log; Vis12 v12; v12.log = &log; Vis3 v3; v3.log = &log; VisNone vn; VisThrows vt; vt.log = &log;
+            xtl::base_visitor* vis = v == 0 ? static_cast<xtl::base_visitor*>(&va) : (v == 1 ? static_cast<xtl::base_visitor*>(&v12) : (v == 2 ? static_cast<xtl::base_visitor*>(&v3) : (v == 3 ? static_cast<xtl::base_visitor*>(&vn) : static_cast<xtl::base_visitor*>(&vt))));
+            bool implemented = t != 0 && ((v == 0) || ((v == 1 || v == 4) && (t == 1 || t == 2)) || (v == 2 && t == 3));
             log.clear(); catch_log().clear();
             bool error = false; int ret = -1;
+            if (v == 4 && implemented)
+            {
+                // the handler's own exception reaches the caller as it is; it is not an "unknown visitor"
+                int caught = 0;
+                try { ret = target->accept(*vis); }
+                catch (const std::bad_cast&) { caught = 1; }
+                catch (const std::logic_error&) { caught = 2; }
+                catch (const std::runtime_error&) { caught = 3; }
+                if (caught != t) viol("handler-exception", std::string("the exception thrown by the registered visit() did not reach the caller (") + (caught == 0 ? "accept returned normally" : caught == 3 ? "the catch-all policy reported an unknown visitor" : "another exception arrived") + ")");
+                if (log.size() != 1 || log[0].first != t || !catch_log().empty()) viol("handler-exception", "a throwing visit(): the visit did not run exactly once, or the catch-all policy ran as well");
+                SIM_PROBE("handler_threw");
+                run.dig(static_cast<uint64_t>(caught));
+                return;
+            }
             try { ret = target->accept(*vis); } catch (const std::runtime_error&) { error = true; }
             if (implemented)
             {
